@@ -145,7 +145,7 @@ func genC11(entry, fault string, capacity int) func(*rapid.T) c11Case {
 		nv := rapid.IntRange(1, 2).Draw(t, "nv")
 		for i := 0; i < nv; i++ {
 			g.budget = 4
-			p.Validations = append(p.Validations, m.Validation{Name: fmt.Sprintf("v%d", i), Level: pick(t, levels, "level"), Class: "ex.Test", Body: g.formula(0)})
+			p.Validations = append(p.Validations, m.Validation{Name: fmt.Sprintf("v%d", i), Level: pick(t, levels, "level"), Class: "ex.Test", Body: g.bounded(40)})
 		}
 		for _, v := range p.Validations {
 			v.Body.MarkPolarity(m.Pos)
